@@ -163,6 +163,12 @@ def apply_shadow(doc, op):
         k = op[0]
         if k in ("set", "set_match"):
             set_(b.steps(op[1]), val(op[2]), doc, cascade=op[3])
+        elif k == "mset":
+            from treepath import find_matches, set_match
+            import itertools
+            ms = list(itertools.islice(find_matches(b.steps(op[1]), doc), op[2] + 1))
+            if len(ms) > op[2]:
+                set_match(b.steps(op[3]), val(op[4]), ms[op[2]], cascade=op[5])
         elif k == "pop":
             pop(b.steps(op[1]), doc, default=None)
         elif k == "pop_match":
@@ -171,6 +177,29 @@ def apply_shadow(doc, op):
             get(b.steps(op[1]), doc, default=val(op[2]), store_default=True)
     except Exception:
         pass
+
+
+def gen_mset(rng, doc, cascade):
+    """set_match from a Match: source = an existing location, target = a path relative to it that
+    descends, or climbs above the source first"""
+    locs = [l for l in locations(doc) if l] or [()]
+    loc = rng.choice(locs)
+    src = loc_to_steps(rng, doc, loc, fancy=0.15)
+    cur = node_at(doc, loc)
+    r = rng.random()
+    rel = []
+    if r < 0.55:
+        for _ in range(rng.randint(1, min(2, len(loc)) if loc else 1)):
+            rel.append(["par"])
+        up = node_at(doc, loc[:max(0, len(loc) - len(rel))])
+        cur = up
+    if isinstance(cur, list):
+        rel.append(["i", rng.choice([0, len(cur), len(cur) - 1, -1])])
+    else:
+        rel.append(["k", rng.choice(gen.KEYS + (list(cur.keys()) if isinstance(cur, dict) else []))])
+    if cascade and rng.random() < 0.5:
+        rel.append(["k", rng.choice(gen.KEYS)])
+    return ["mset", src, 0, rel, gen_valspec(rng, doc), cascade]
 
 
 def gen_mutate(rng, profile):
@@ -185,7 +214,9 @@ def gen_mutate(rng, profile):
     prev_paths = []
     for _ in range(nops):
         r = rng.random()
-        if profile == "set":
+        if (profile in ("set", "cascade") and rng.random() < 0.15) or profile == "mset":
+            op = gen_mset(rng, shadow, cascade=(profile == "cascade" or (profile == "mset" and rng.random() < 0.3)))
+        elif profile == "set":
             steps, _ = target_path(rng, shadow)
             op = [rng.choice(["set", "set", "set_match"]), steps, gen_valspec(rng, shadow), False]
         elif profile == "cascade":
